@@ -876,12 +876,14 @@ impl<'ascent, 'grammar, W: Write>
             }
             rust!(self.out, "let {p}end = {p}start.clone();", p = self.prefix);
         } else {
-            // this only occurs in the start state
+            // this only occurs in the start state: nothing has been
+            // pushed yet, so use the start of the lookahead if there
+            // is one (as the table-driven parser does)
             rust!(
                 self.out,
-                "let {}start: {} = Default::default();",
-                self.prefix,
+                "let {p}start: {} = {p}lookahead.as_ref().map(|o| o.0.clone()).unwrap_or_default();",
                 loc_type,
+                p = self.prefix,
             );
             rust!(self.out, "let {p}end = {p}start.clone();", p = self.prefix);
         }
